@@ -22,7 +22,7 @@ ASSUMPTIONS = ["ASCII digits only (non-ASCII digits are outside the generator an
 DECIDING = ["range_checks", "lines_checked"]
 
 BLOCKS = [(0, 64511), (64512, 65535), (65536, 4199999999), (4200000000, 4294967295)]
-EDGE = sorted({v for lo, hi in BLOCKS for v in (lo, lo + 1, lo + 2, hi - 2, hi - 1, hi)} | {0, 1, 4294967295})
+EDGE = sorted({v for lo, hi in BLOCKS for v in (lo, lo + 1, lo + 2, hi - 2, hi - 1, hi)} | {0, 1, 4294967295, 23456, 64496, 64511, 65535, 65536, 65551, 64512, 4200000000, 4294967294})
 
 
 def block_of(n):
@@ -52,7 +52,9 @@ def gen_numbers(rng):
         return sorted(str(n) for n in rng.sample(range(64512, 65536), rng.randint(20, 60)))
     for _ in range(rng.randint(1, 6)):
         r = rng.random()
-        if r < 0.4:
+        if r < 0.08:
+            nums.add(23456)
+        elif r < 0.4:
             nums.add(rng.choice(EDGE))
         elif r < 0.6:
             base = str(rng.randint(1, 9999))
@@ -240,6 +242,21 @@ def _salts(ctx, case, nc):
             ctx.info.setdefault("sampled_offsets_block_%d" % b, {"min": lo_seen[b], "max": hi_seen[b], "size": BLOCKS[b][1] - BLOCKS[b][0] + 1})
     if hi_seen[1] == 1023:
         ctx.count("private16_upper_end_reached_by_sampling")
+    # "replaced": a listed number that comes out as itself under salt after salt is not being replaced at all. For a number
+    # in a block of size S the chance of a self image is 1/S per salt; three of 24 salts is beyond any chance in every block
+    # but the 1024-wide one, which gets a threshold of its own.
+    special = ["23456", "0", "1", "64496", "64511", "64512", "65535", "65536", "65551", "4200000000", "4294967294", "4294967295",
+               "13335", "15169", "3356", "174", "7018", "64999", "65001"]
+    for n in special:
+        same = 0
+        for k in range(24):
+            r = nc.sir.AsNumberAnonymizer([n], "self%d-%d" % (k, case["seed"] % 9973)).anonymize(n)
+            ctx.ev()
+            ctx.count("self_image_probes")
+            same += (r == n)
+        if same >= (3 if block_of(int(n)) != 1 else 5):
+            ctx.violation(dict(case, witness={"n": n}), "listed-number-never-replaced", "AS %s came out as itself under %d of 24 different salts" % (n, same))
+            return
 
 
 def _pristine(ctx, case, nc):
